@@ -69,8 +69,6 @@ theorem border_cases (bc gci) (side : String) (pb : Option Border) (mb : Option 
       simp only [Except.map, Except.ok.injEq] at this
       exact .inr ⟨b, _, r, rfl, rfl, hr, this⟩
 
-theorem cps_append (a b : List Char) : cps (a ++ b) = cps a ++ cps b := by simp [cps]
-
 /-- the vertical-alignment control words, printed -/
 theorem print_valign (ws : List (List Char)) :
     cps (printNodes (ws.map fun w => Node.cw w none false)) = ws.flatMap fun w => cps ('\\' :: w) := by
@@ -79,14 +77,6 @@ theorem print_valign (ws : List (List Char)) :
   | cons w ws ih =>
     simp only [List.map_cons, printNodes, printNode, List.flatMap_cons, cps_append, ih]
     simp [cps]
-
-theorem pyJoin_nil (l : List (List Nat)) : pyJoin [] l = l.flatten := by
-  induction l with
-  | nil => rfl
-  | cons x xs ih =>
-    cases xs with
-    | nil => simp [pyJoin]
-    | cons y ys => simp only [pyJoin, List.append_nil, ih, List.flatten_cons]
 
 /-- **the translated `Cell._as_rtf` prints the model's cell definition and `\cellxN`** -/
 theorem C01py_cell_translated (bc gci vac) (i2t : Rat → Int) (bl bt br bb : Option Border)
